@@ -12,6 +12,10 @@ CHECKS = {
             'Trusts Python datetime.date as the calendar; malformed classes limited to unambiguous ones.', '6 C20'),
 }
 
+CHECKS['C17'] = ('exhaustive enumeration of the single-field boundary grid + Hypothesis 1-3 field combinations vs a documented-domain table (ACCEPT / REJECT=ValueError / EITHER)',
+                 'Every single-field boundary value is enumerated (finite, complete); multi-field combinations are sampled. Decides accept/reject and exception type against the docstring; EITHER where docs and callers are silent.',
+                 'The domain table is my reading of the class docstring plus the two shipped notebooks (caller-grounded ACCEPTs).', '6 C17')
+
 PENDING = {}
 
 
